@@ -1244,6 +1244,10 @@ impl Part for Random {
     fn check(&self, case: &Case) -> Outcome {
         check_case(case)
     }
+    /// the document is a function of `seed`: shrinking mostly lowers `target` and the flags, which needs few steps
+    fn max_shrink_iters(&self, tier: Tier) -> u32 {
+        tier.pick(120, 300)
+    }
 }
 
 /// Enumerated cells: format x boundary size x prior kind x thread count (flags from the cell hash).
@@ -1341,5 +1345,33 @@ fn main() {
     let cells = boundary_cells(s.tier, s.seed);
     s.run_enum(&Boundary, cells.into_iter(), true);
     s.run(&Random);
-    std::process::exit(s.finish());
+    let tier = s.tier;
+    let code = s.finish();
+    compact_log(tier);
+    std::process::exit(code);
+}
+
+/// The N3 loader prints one "Unknown prefix" line per unresolved term (known findings F2/F3): hundreds
+/// of megabytes in the thorough tier. Keep the head and the tail of the log, count the rest.
+fn compact_log(tier: Tier) {
+    use std::io::{Read, Seek, SeekFrom, Write};
+    const KEEP: u64 = 512 << 10;
+    let root = std::env::var("KVH_ROOT").unwrap_or_else(|_| "/verif".to_string());
+    let path = format!("{root}/logs/C13.{}.log", tier.name());
+    let Ok(mut f) = std::fs::File::open(&path) else { return };
+    let len = f.metadata().map(|m| m.len()).unwrap_or(0);
+    if len <= 4 * KEEP {
+        return;
+    }
+    let mut head = vec![0u8; KEEP as usize];
+    let mut tail = vec![0u8; KEEP as usize];
+    if f.read_exact(&mut head).is_err() || f.seek(SeekFrom::Start(len - KEEP)).is_err() || f.read_exact(&mut tail).is_err() {
+        return;
+    }
+    drop(f);
+    if let Ok(mut w) = std::fs::File::create(&path) {
+        let _ = w.write_all(&head);
+        let _ = write!(w, "\n[... {} bytes of loader chatter removed by c13 ...]\n", len - 2 * KEEP);
+        let _ = w.write_all(&tail);
+    }
 }
